@@ -178,6 +178,9 @@ func (ex *Exec) checkAsserts(fr *Frame, st *State, key string, names []string, p
 			}
 		}
 		ord := ex.nextCallOrd(fr, "assert:"+site+":"+label, pos)
+		if ex.secondAttempt {
+			site += "(retry)"
+		}
 		g := ex.evalBool(cl.E, env)
 		ex.addObl(st, "assert", ex.oblName("assert", fmt.Sprintf("#%s@%s#%d", label, site, ord)), g, pos, cl.Text)
 		cl.Reached = true
@@ -511,8 +514,9 @@ func (ex *Exec) applyContractNamed(fr *Frame, st *State, c *Contract, names []st
 			// arguments: run the body once on a copy of the state (heap unknown) so that the obligations
 			// inside it are generated; its effects on captured variables are havoc for the caller
 			st2 := st.Clone()
-			ex.markEscaped(st2, []Val{fv})
-			ex.havocHeap(st2)
+			// the callee may have changed the heap before it calls the closure; the variables the closure captured
+			// can only be changed by the closure itself
+			ex.havocHeapOnly(st2)
 			var cargs []Val
 			for _, p := range fv.Fn.Params {
 				cargs = append(cargs, ex.freshVal(st2, p.Type(), "cb_"+p.Name()))
@@ -524,7 +528,37 @@ func (ex *Exec) applyContractNamed(fr *Frame, st *State, c *Contract, names []st
 				nfr.env[p] = cargs[i]
 			}
 			ex.bindFreeVars(nfr, fv.Fn, fv.Bind)
-			ex.runBlock(nfr, st2, fv.Fn.Blocks[0], 0)
+			outs := ex.runBlock(nfr, st2, fv.Fn.Blocks[0], 0)
+			if c.Flags["repeats"] {
+				// a callee that calls the closure again after a failed attempt (retry.Do): a second attempt starts
+				// from every state in which the first one returned (obligations inside see that state)
+				for _, o := range outs {
+					if o.Panic || len(outs) > 16 {
+						continue
+					}
+					nfr2 := &Frame{fn: fv.Fn, env: map[ssa.Value]Val{}, loopCut: map[*ssa.BasicBlock]bool{}, args: cargs, depth: fr.depth + 1,
+						stack: append(append([]*ssa.Function(nil), fr.stack...), fv.Fn)}
+					for i, p := range fv.Fn.Params {
+						nfr2.env[p] = cargs[i]
+					}
+					ex.bindFreeVars(nfr2, fv.Fn, fv.Bind)
+					// only a failed attempt is retried
+					if len(o.Ret) == 1 {
+						if iv, ok := o.Ret[0].(*IfaceV); ok {
+							if iv.Nil {
+								continue
+							}
+							if iv.Dyn == nil && iv.Sym != nil && iv.Sym.Sort == SErr {
+								o.St.Assume(Not(Eq(iv.Sym, errNil)))
+							}
+						}
+					}
+					o.St.Tracef("%s: %s retries the closure (second attempt)", ex.pos(pos), shortKey(key))
+					ex.secondAttempt = true
+					ex.runBlock(nfr2, o.St, fv.Fn.Blocks[0], 0)
+					ex.secondAttempt = false
+				}
+			}
 			ex.markEscaped(st, []Val{fv})
 			for c := range st.cells {
 				if c.Escaped {
@@ -778,6 +812,15 @@ func (ex *Exec) nextCallOrd(fr *Frame, key string, pos token.Pos) int {
 
 func (ex *Exec) builtin(fr *Frame, st *State, name string, args []Val, cc *ssa.CallCommon, rt types.Type, pos token.Pos) []Outcome {
 	one := func(v Val) []Outcome { return []Outcome{{St: st, Ret: []Val{v}}} }
+	if name == "append" || name == "copy" || name == "delete" {
+		var ns []string
+		var ts []types.Type
+		for i := range args {
+			ns = append(ns, fmt.Sprintf("b%d", i))
+			ts = append(ts, nil)
+		}
+		ex.checkAsserts(fr, st, "builtin."+name, ns, ts, args, pos)
+	}
 	switch name {
 	case "len", "cap":
 		if len(args) == 1 {
